@@ -223,7 +223,8 @@ func VH_C18_proofs() {
 		// an altered proof is rejected
 		if len(proof) > 0 {
 			e := sym.Choose("elem", len(proof))
-			pos := sym.Choose("pos", len(proof[e]))
+			pos := int(sym.U16("pos")) // a symbolic position: one query covers every byte of the element
+			sym.Assume(pos < len(proof[e]))
 			mask := sym.U8("mask")
 			sym.Assume(mask != 0)
 			bad := make([][]byte, len(proof))
